@@ -106,7 +106,7 @@ func c38ScheduleGen(t *rapid.T, maxOps int, spaced bool) c38Schedule {
 	case "plain":
 		kinds = []string{"rewrite", "rename", "slowwrite", "remove", "create"}
 	case "k8s":
-		kinds = []string{"swap"}
+		kinds = []string{"swap", "swap", "relink"}
 	default:
 		kinds = []string{"rewrite", "retarget", "remove", "create"}
 	}
@@ -128,6 +128,9 @@ func c38ScheduleGen(t *rapid.T, maxOps int, spaced bool) c38Schedule {
 				o.afterSignal = true
 				o.gap = 0
 			}
+		}
+		if o.kind == "relink" {
+			o.pause = rapid.SampledFrom([]time.Duration{20 * time.Millisecond, 0, 150 * time.Millisecond}).Draw(t, "pause")
 		}
 		if o.kind == "slowwrite" {
 			o.pause = rapid.SampledFrom([]time.Duration{30 * time.Millisecond, 5 * time.Millisecond, 150 * time.Millisecond}).Draw(t, "pause")
@@ -344,6 +347,17 @@ func c38Play(s c38Schedule, spaced bool) (out c38Outcome) {
 				!fail(os.Symlink(fmt.Sprintf("..v%d", gen), filepath.Join(dir, "..data_tmp"))) &&
 				!fail(os.Rename(filepath.Join(dir, "..data_tmp"), filepath.Join(dir, "..data"))) {
 				fail(os.RemoveAll(old))
+			}
+		case "relink": // the ..data link disappears, the content behind it is rewritten, the link comes back to the SAME directory
+			note("op %d: remove the ..data symlink, rewrite the file behind it with %q, re-create the symlink to the same directory", i+1, c)
+			mu.Unlock()
+			cur := fmt.Sprintf("..v%d", gen)
+			if !fail(os.Remove(filepath.Join(dir, "..data"))) {
+				time.Sleep(op.pause)
+				if !fail(os.WriteFile(filepath.Join(dir, cur, c38FileName), []byte(c), 0o644)) {
+					time.Sleep(op.pause)
+					fail(os.Symlink(cur, filepath.Join(dir, "..data")))
+				}
 			}
 		case "retarget": // same-directory symlink pointed to a new file
 			note("op %d: new target file with %q, symlink renamed over the watched symlink", i+1, c)
